@@ -435,7 +435,8 @@ def check(ctx, c, lang, obs=None):
         # the automatic newline before a list marker depends on where an expansion *starts*, which
         # selective expansion legitimately shifts: compare modulo newlines directly before a marker
         import re as _re
-        nrm = lambda t: _re.sub(r"\n(?=[*#:;])", "", t)
+        # (whole runs: a content line break and the automatic newline can both stand before the same marker)
+        nrm = lambda t: _re.sub(r"\n+(?=[*#:;])", "", t)
         if nrm(full1) != nrm(full2) and not full1.startswith("<<"):
             P("confluence-broken", "expand(p)=%r expand(expand_sel(p))=%r sel-out=%r" % (full1, full2, got))
     return probs, r
